@@ -42,11 +42,16 @@ pub fn model_tokens(c: &Case) -> (Vec<(RTok, u64)>, crate::model::reftok::Covera
 }
 
 pub fn impl_tokens(c: &Case, cuts: &[usize]) -> Result<Vec<(RTok, u64)>, String> {
+    impl_tokens_with(c, cuts, false)
+}
+
+/// `exact_errors` only changes the wording and number of parse errors (dropped by coalesce)
+pub fn impl_tokens_with(c: &Case, cuts: &[usize], exact_errors: bool) -> Result<Vec<(RTok, u64)>, String> {
     // PLAINTEXT is entered through Tokenizer::set_plaintext_state() for inputs of even length, through
     // TokenizerOpts::initial_state for the others (both are public ways to start there)
     let via_setter = c.start == StartState::Plaintext && c.input.len() % 2 == 0;
     let opts = HtmlTokOpts {
-        exact_errors: false,
+        exact_errors,
         discard_bom: c.discard_bom,
         profile: false,
         initial_state: if via_setter { None } else { Some(real_state(c.start)) },
